@@ -14,6 +14,9 @@ mod c19;
 mod fx;
 mod c09;
 mod c08;
+mod ind;
+mod c15;
+mod c14;
 
 use common::*;
 use std::path::PathBuf;
@@ -47,6 +50,8 @@ fn main() {
         "c19" => c19::run(&mut out, tier, seed, replay),
         "c09" => c09::run(&mut out, tier, seed, replay),
         "c08" => c08::run(&mut out, tier, seed, replay),
+        "c15" => c15::run(&mut out, tier, seed, replay),
+        "c14" => c14::run(&mut out, tier, seed, replay),
         _ => {
             eprintln!("unknown property {}", prop);
             std::process::exit(2);
